@@ -6,7 +6,7 @@ CONSTANTS
   MaxLen = 3
   NPorts = {0, 1, 2}
   Classes = {"discover", "object", "number", "string", "list", "null", "bool", "badutf8", "badjson", "empty", "oversized", "deep", "oversized_deep", "discover_extra", "oversized_discover"}
-  Loose = {"discover_extra", "oversized_discover"}
+  Loose = {"oversized_discover"}
   Contained = {"discover", "object", "string", "list", "badjson", "empty", "oversized", "discover_extra", "oversized_discover"}
   DisableRule = "identity"
   AnnounceRule = "enabled"
